@@ -115,9 +115,28 @@ func freshBase(v ssa.Value) bool {
 			continue
 		case *ssa.Alloc:
 			return true
+		case *ssa.Call:
+			// the result of a constructor helper: nobody else has it yet
+			return freshCtor(eng.Callee(&x.Call))
 		}
 		return false
 	}
+}
+
+// freshCtor reports whether f is a module function every return of which
+// answers an object it has just allocated itself.
+func freshCtor(f *ssa.Function) bool {
+	if f == nil || f.Blocks == nil || f.Signature.Results().Len() != 1 {
+		return false
+	}
+	rets := eng.Returns(f)
+	for _, r := range rets {
+		al, ok := eng.Origin(eng.RetVals(r)[0]).(*ssa.Alloc)
+		if !ok || !al.Heap {
+			return false
+		}
+	}
+	return len(rets) > 0
 }
 
 func kvWritesIn(f *ssa.Function) []kvWrite {
